@@ -159,6 +159,14 @@ def make_sleep(clock: Clock, on_suspend=None):
     return sleep
 
 
+def _floor(x):
+    import math
+    import z3
+    if isinstance(x, V.SNum):
+        return x if x.is_int else V.SNum(z3.ToInt(x.term), True)
+    return math.floor(x)
+
+
 # ---- datetime as reals --------------------------------------------------------------------------
 class STd:
     """datetime.timedelta as a (symbolic or concrete) number of seconds."""
@@ -168,6 +176,20 @@ class STd:
         self.s = seconds
 
     def total_seconds(self): return self.s
+
+    # the three components of a real timedelta (normalised: 0 <= seconds < 86400, 0 <= microseconds < 10**6)
+    @property
+    def days(self):
+        return _floor(self.s / 86400)
+
+    @property
+    def seconds(self):
+        return _floor(self.s) - 86400 * self.days
+
+    @property
+    def microseconds(self):
+        return _floor((self.s - _floor(self.s)) * 1000000)
+
     def __add__(self, o):
         if isinstance(o, STd): return STd(self.s + o.s)
         if isinstance(o, SDt): return SDt(o.t + self.s)
